@@ -101,6 +101,7 @@ def check_child_table_access(ctx, fx, RULE="R16.1"):
 def run_cfg(ctx, fx):
     check_child_table_access(ctx, fx)
     check_child_store(ctx, fx)
+    check_registration_unconditional(ctx, fx)
     check_rest(ctx, fx)
 
 
@@ -164,6 +165,45 @@ def check_child_store(ctx, fx, RULE="R16.2"):
             keys, stored = ["via " + (dels[0].get("callee") or "?") + "::<" + ",".join(dels[0].get("gargs") or []) + ">"] if dels else [], []
         ctx.require(ok, RULE, "store:" + w, "child must be stored as a strong Sender<%s> under TypeId::of::<%s>(): keys %s stored %s" % (expect_m, expect_m, keys, stored), fn=w, site=f["loc"], detail={"key": keys, "stored": stored})
     ctx.floor(RULE, "functions that register children", n_w, 2)
+
+
+class _StoredOnEveryPath(nfa.Spec):
+    """a child handed to a registration method is in the table when the method returns — on every path that can occur (the
+    entry of a message type casts back to the type it was created with: the `None` of that downcast does not occur)"""
+    init = (False,)
+
+    def step(self, st, label):
+        ev = label.split("@")[0]
+        src = label.split("@")[1] if "@" in label else ""
+        if ev in ("unwind", "cancel"):
+            return st
+        if ev == "call:store":
+            return (True,)
+        if ev == "sw:Option::None" and src == "downcast":
+            return nfa._INFEASIBLE
+        if ev == "ret" and not st[0]:
+            return nfa.Err("R16.7: the method returns without having stored the child (a registration that is silently skipped: the child misses every broadcast of that type)")
+        return st
+
+
+def check_registration_unconditional(ctx, fx, RULE="R16.7"):
+    import inline
+    A = nfa.Alphabet(
+        calls=[("store", lambda t: (t.get("callee") or "").endswith(("vec::{impl#1}::push", "::push")) and "alloc::vec::Vec<" in (t.get("self_ty") or "") or ((t.get("callee") or "").startswith("std::collections::hash::map::") and (t.get("callee") or "").endswith("::insert"))),
+               ("downcast", lambda t: (t.get("callee") or "").endswith(("::downcast_mut", "::downcast_ref", "::downcast")))],
+        adts={"core::option::Option": "Option"})
+    for w in ("context::Context::<A>::add_child", "context::Context::<A>::register_child"):
+        f = fx.fn(w)
+        if f is None:
+            continue
+        b = inline.body(ctx, fx, f, inline.not_public)
+        n = nfa.build(b, A, fx, depth=2)
+        viols, ps = nfa.check(n, _StoredOnEveryPath())
+        ctx.count_nfa(n.stats(), ps)
+        for v in viols:
+            ctx.viol(RULE, "registered-on-every-path:" + w, v["msg"], fn=w, site=f["loc"], trace=v["trace"])
+        if not viols:
+            ctx.ok(RULE, "registered-on-every-path:" + w, f["loc"], {"words": [" ".join(x) for x in nfa.words(n, limit=2)]})
 
 
 def check_rest(ctx, fx):
